@@ -1,3 +1,4 @@
+from lib import core
 from lib.runner import PropCheck, Stream
 
 
@@ -24,6 +25,10 @@ class ShamirStream(Stream):
 
 class C20(PropCheck):
     pid = "C20"
+    lean_modules = ["C20", "C20Gen"]
+
+    def pre(self, ctx):
+        core.regenerate()
     streams = [ShamirStream()]
     assumptions = [
         "crypto/rand output is uniform (the model takes the coefficients and the shuffled x-coordinates as inputs)",
